@@ -79,6 +79,9 @@ def run(ctx, rep):
         check_cut(crate, rep, cfg)
         check_sc(crate, rep, cfg)
         check_lookup(crate, rep, cfg)
+        # "exactly one level of undefined" in the fused path instructions (shared with C09)
+        from props import c09
+        c09.check_fused_load(crate, crate.one("vm::interpreter::VirtualMachine::<'tera>::interpret"), rep, cfg)
 
 
 def check_prec(ctx, crate, rep, cfg):
